@@ -14,7 +14,8 @@ RULE = ("random expression trees (depth <= 4) over registered units, freshly def
         "every pair ever produced; the same product is re-evaluated in shuffled orders; explicit group laws on the same "
         "operands.  distinct = (normal form, operator skeleton); non-trivial = >= 2 operators and the value is not a "
         "registered named unit"
-        " Integer exponents also arrive as IntEnum members and bools, prefixes of bases 60/16/1024/3 are mixed in, fundamental dimensions are declared in the middle of the run (the identity maps span the declaration), and refused operations (x ** 2.0, x * \"m\"...) are made on live objects in between.")
+        " Integer exponents also arrive as IntEnum members and bools, prefixes of bases 60/16/1024/3 are mixed in, fundamental dimensions are declared in the middle of the run (the identity maps span the declaration), and refused operations (x ** 2.0, x * \"m\"...) are made on live objects in between."
+        " Prefix trees start from one number spelled in two bases (1024**k over 2**(10k) ...), whose quotient has an exponent of a few 1e-16; an operator that raises anything but its own refusal is a violation.  Table sweeps judge entries through the public constructor only.")
 ASSUMPTIONS = [
     "the normal-form model (vmon/model.py) is the reference; named units' factor tables are read from the objects at boot",
     "identity (is) is demanded only when every prefix in the tree shares one base; mixed SI/IEC trees are compared "
